@@ -921,15 +921,18 @@ class _RsaProxy(object):
             pool.append(self._real.generate_private_key(public_exponent=public_exponent,
                                                         key_size=key_size))
         self._next[(public_exponent, key_size)] = i + 1
-        return pool[i % len(pool)]
+        return pool[i % min(len(pool), self.pool_size)]
 
     def __getattr__(self, name):
         return getattr(self._real, name)
 
 
-def use_rsa_pool():
+def use_rsa_pool(size=None):
+    """size=1 makes every generated pair the same key (batch-vs-twin comparisons)."""
     if not isinstance(crypto_mod.rsa, _RsaProxy):
         crypto_mod.rsa = _RsaProxy(crypto_mod.rsa)
+    if size is not None:
+        crypto_mod.rsa.pool_size = size
 
 
 OPEN_POLICY = {'preset': {ot: {op: enums.Policy.ALLOW_ALL for op in enums.Operation}
